@@ -131,6 +131,17 @@ K uint64_t k_fn_address(uint64_t b0, uint64_t b1, uint32_t invoke_first, uint32_
   };
   return (inst & 1) ? run(s[1]) : run(s[0]);
 }
+// const-qualified 64-bit arguments: a plain const long long and one that lives in sandbox memory behind a pointer to const
+long gf_cll(long long, long long);
+static int32_t g0_cll(int64_t a, int64_t b) { env_log(36, 0, (uint64_t)a, (uint64_t)b); return (int32_t)env_u64(40); }
+K uint64_t k_const_llong(uint64_t b0, uint64_t b1, uint64_t cell, long long v) {
+  RL s[2]; setup(s, b0, b1);
+  s[0].get_sandbox_impl()->add_symbol("gf_cll", (void*)&g0_cll, 0x1a0);
+  const long long cv = v;
+  auto pc = mk_tainted<const long long*, BM>(cell);
+  auto r = s[0].invoke_sandbox_function(gf_cll, cv, *pc);
+  return (uint64_t)r.UNSAFE_unverified();
+}
 // the same sandbox object is destroyed and created again with ANOTHER library that exports the same name: names used
 // by the first incarnation (invoked and/or address taken) must be resolved afresh
 K uint64_t k_reincarnate(uint64_t b0, uint64_t b1, uint32_t took_addr, long v) {
@@ -265,6 +276,25 @@ def check_reincarnate(ctx):
     ctx.expect(paths, ret=2)
 
 
+def check_const_llong(ctx):
+    ctx.eng.max_strlen = 64
+    b0, b1 = bm_two_bases(ctx)
+    cell = ctx.sym("cell", 64)
+    v = ctx.sym("v", 64)
+    ctx.assume(z3.UGE(cell, b0), z3.ULE(cell - b0, BV((1 << 32) - 8, 64)))
+    mem0 = ctx.eng.initial_memory()
+    inmem = z3.Concat(*[z3.Select(mem0, cell + BV(i, 64)) for i in reversed(range(8))])
+    paths = ctx.run("k_const_llong", [b0, b1, cell, v])
+    for q in paths:
+        if q.status == "ret":
+            g = logs(q, 36, 36)
+            ctx.require(q, z3.And(z3.BoolVal(len(g) == 1), bv(g[0][2]) == v, bv(g[0][3]) == inmem) if g else z3.BoolVal(False),
+                        "const-qualified long long arguments (plain, and read from sandbox memory through a pointer to const) reach the guest with all 64 bits")
+        else:
+            ctx.fail(q, "a representable const long long argument made the call fail (%s: %s)" % (q.status, q.info))
+    ctx.expect(paths, ret=1)
+
+
 def check_fnaddr(ctx):
     ctx.eng.max_strlen = 64
     b0, b1 = bm_two_bases(ctx)
@@ -350,7 +380,8 @@ def jobs(tier, seed):
     items = [dict(name="BM %s %s" % (n, f), fn=check_sig, kw=dict(name=n, form=f), unwind=300) for n in SIGS for f in FORMS]
     items += [dict(name="BM two instances same name", fn=check_two, unwind=300), dict(name="BM function address before/after invoke", fn=check_fnaddr, unwind=300),
               dict(name="BM function pointer argument", fn=check_fnptr_arg, unwind=300),
-              dict(name="BM destroy + create with another library", fn=check_reincarnate, unwind=300)]
+              dict(name="BM destroy + create with another library", fn=check_reincarnate, unwind=300),
+              dict(name="BM const long long arguments", fn=check_const_llong, unwind=300)]
     out = [Job("C11_bm_%d" % i, src, items[i::6], flags=fl) for i in range(6)]
     # structs passed and returned by value (nested structs, multi-dimensional array members): kernels and oracles of C08
     from specs import C08
